@@ -119,6 +119,13 @@ def h_zip(en, *xs):
   return list(zip(*lists))
 
 
+def h_map(en, f, *xs):
+  lists = [en.try_concrete_iter(x) for x in xs]
+  if any(l is None for l in lists):
+    raise E.Unsupported('map over symbolic length')
+  return [en.call(f, list(a), {}) for a in zip(*lists)]
+
+
 def h_tuple(en, xs=()):
   if isinstance(xs, E.SymSeq):
     return xs
@@ -259,6 +266,7 @@ def install(eng):
   R(builtins.abs, h_abs, 'abs')
   R(builtins.enumerate, h_enumerate, 'enumerate')
   R(builtins.zip, h_zip, 'zip')
+  R(builtins.map, h_map, 'map')
   R(builtins.tuple, h_tuple, 'tuple')
   R(builtins.list, h_list, 'list')
   R(builtins.isinstance, h_isinstance, 'isinstance')
